@@ -752,9 +752,9 @@ Definition obs_int (i : interest) : int_obs :=
          (option_map (@concat N) (i_app i)) (i_si i) (option_map (@concat N) (i_sv i)).
 
 (* ------------------------------------------------------------------------------------------------ independent structural walker *)
-(* Accepts a byte string iff it is a sequence of TLV elements whose length fields are exact, recursively inside the
-   elements that the NDN packet format defines as nested.  Written against tl_dec only: shares nothing with the encoders
-   or parsers above. *)
+(* Accepts a byte string iff it is a sequence of TLV elements whose type and length numbers are in shortest form and
+   whose length fields are exact, recursively inside the elements that the NDN packet format defines as nested.  Written
+   against tl_dec / tl_enc only: shares nothing with the encoders or parsers above. *)
 Definition nested (ctx t : N) : option N :=
   if ctx =? 0 then (if (t =? 5) || (t =? 6) then Some t else None)
   else if ctx =? 6 then (if t =? 7 then Some 7 else if t =? 20 then Some 20 else if t =? 22 then Some 22 else None)
@@ -764,6 +764,18 @@ Definition nested (ctx t : N) : option N :=
   else if ctx =? 28 then (if t =? 7 then Some 7 else None)
   else if ctx =? 30 then (if t =? 7 then Some 7 else None)
   else None.
+(* a T or L number in its shortest form (the NDN packet format requires it) *)
+Fixpoint bytes_prefix (p b : bytes) : bool :=
+  match p, b with
+  | [], _ => true
+  | x :: p', y :: b' => (x =? y) && bytes_prefix p' b'
+  | _ :: _, [] => false
+  end.
+Definition tl_dec_min (b : bytes) : option (N * bytes) :=
+  match tl_dec b with
+  | Some (n, r) => if bytes_prefix (tl_enc n) b then Some (n, r) else None
+  | None => None
+  end.
 Fixpoint walk (fuel : nat) (ctx : N) (b : bytes) : bool :=
   match fuel with
   | O => false
@@ -771,10 +783,10 @@ Fixpoint walk (fuel : nat) (ctx : N) (b : bytes) : bool :=
       match b with
       | [] => true
       | _ =>
-          match tl_dec b with
+          match tl_dec_min b with
           | None => false
           | Some (t, r1) =>
-              match tl_dec r1 with
+              match tl_dec_min r1 with
               | None => false
               | Some (l, r2) =>
                   if N.of_nat (length r2) <? l then false
@@ -786,8 +798,8 @@ Fixpoint walk (fuel : nat) (ctx : N) (b : bytes) : bool :=
   end.
 (* exactly one top-level element, whose length field covers the rest of the buffer *)
 Definition single_tlv (b : bytes) : bool :=
-  match tl_dec b with
-  | Some (_, r1) => match tl_dec r1 with Some (l, r2) => N.of_nat (length r2) =? l | None => false end
+  match tl_dec_min b with
+  | Some (_, r1) => match tl_dec_min r1 with Some (l, r2) => N.of_nat (length r2) =? l | None => false end
   | None => false
   end.
 Definition walk_packet (b : bytes) : bool := single_tlv b && walk (S (length b)) 0 b.
